@@ -12,7 +12,7 @@ EXPLANATION = ("static analysis (MIR abstract interpretation): LP is minted only
                "liquidity is minted to the contract on the supply==0 edge of both pool types")
 ASSUMPTIONS = ["all inequalities (value per LP non-decreasing, stableswap D growth, 'at least that minus one unit') are numeric and not decided",
                "stableswap mint goes through Newton solvers: rounding direction undetermined, not claimed"]
-TECHNIQUE = "static analysis: mint/burn call-site table, operator-class provenance (min vs max, rounding direction), pairing on the empty-pool edge"
+TECHNIQUE = "static analysis: mint/burn call-site table, operator-class provenance (min vs max, rounding direction), pairing on the empty-pool edge, constant-position tags on min operands, sibling agreement of call sites, withdrawal debit-by-denom and switch cut shared with C01/C17"
 LEVEL_TEXT = "Structural obligations over all paths of ProvideLiquidity / WithdrawLiquidity; exhaustive over CFG paths and message variants."
 LEVEL_NOTE = "Not decided: every inequality of the statement; the stableswap mint amount."
 PM = "pool_manager"
